@@ -1,3 +1,103 @@
-(* Props/C24.v — property theorems only. *)
+(* Props/C24.v — property theorems only.
+   C24: "for every format string built from the directives the interpreter supports and every argument list,
+   printf and echo -e write the same bytes and return the same status as bash's builtins, including reusing
+   the format while arguments remain."
+   The full statement  forall argv, builtin argv = bash argv  is FALSE for the faithful model: see the
+   C24_*_refuted witnesses (one per narrow known class).  The positive theorems are stated on the domain of
+   the partial Spec (Expand/Format.v, part 3: bash's rules per directive; None outside the subset). *)
 From Verif Require Import Base.Str Expand.Format Proofs.FormatProofs.
 Open Scope N_scope.
+
+(* the reuse loop terminates: |args|+1 rounds are enough, each continuing round consumes >= 1 argument *)
+Theorem C24_reuse_terminates : forall argv, printf_builtin argv <> BOutOfFuel.
+Proof. exact printf_builtin_terminates. Qed.
+Print Assumptions C24_reuse_terminates.
+
+Theorem C24_format_terminates : forall fmt args, format fmt args <> FOutOfFuel.
+Proof. exact format_no_oof. Qed.
+Print Assumptions C24_format_terminates.
+
+(* no index of formatInto, Format, the reuse loop (args[n:]) or echo can go out of range *)
+Theorem C24_no_panic : forall argv, printf_builtin argv <> BPanic.
+Proof. exact printf_builtin_no_panic. Qed.
+Print Assumptions C24_no_panic.
+
+Theorem C24_no_panic_format : forall fmt args, format fmt args <> FPanic.
+Proof. exact format_no_panic. Qed.
+Print Assumptions C24_no_panic_format.
+
+Theorem C24_no_panic_echo : forall args, echo_builtin args <> BPanic /\ echo_builtin args <> BOutOfFuel.
+Proof. exact echo_builtin_ok. Qed.
+Print Assumptions C24_no_panic_echo.
+
+(* ---- refuted: the full statement fails on these inputs.  w_<class> is the argv, the literal bytes and status
+   are what real bash 5.2 writes (the harness re-runs every witness against bash on every run); the Spec is
+   undefined (None) on each of them, i.e. they are outside the scope of C24_format_matches. *)
+(* printf '%.2s' 'abcdef'  -> bash: 'ab' status 0 *)
+Theorem C24_refuted_precision_rejected : printf_builtin w_precision_rejected <> BOut [97;98] 0 /\ (fun a => spec_printf (hd [] a) (tl a)) w_precision_rejected = None.
+Proof. exact refuted_precision_rejected. Qed.
+
+(* printf '%d' 'abc'  -> bash: '0' status 1 *)
+Theorem C24_refuted_invalid_number_argument : printf_builtin w_invalid_number_argument <> BOut [48] 1 /\ (fun a => spec_printf (hd [] a) (tl a)) w_invalid_number_argument = None.
+Proof. exact refuted_invalid_number_argument. Qed.
+
+(* printf '%d' "'a"  -> bash: '97' status 0 *)
+Theorem C24_refuted_char_constant_argument : printf_builtin w_char_constant_argument <> BOut [57;55] 0 /\ (fun a => spec_printf (hd [] a) (tl a)) w_char_constant_argument = None.
+Proof. exact refuted_char_constant_argument. Qed.
+
+(* printf '%05s|' 'ab'  -> bash: '   ab|' status 0 *)
+Theorem C24_refuted_zero_flag_on_string : printf_builtin w_zero_flag_on_string <> BOut [32;32;32;97;98;124] 0 /\ (fun a => spec_printf (hd [] a) (tl a)) w_zero_flag_on_string = None.
+Proof. exact refuted_zero_flag_on_string. Qed.
+
+(* printf '%5b|' 'x'  -> bash: '    x|' status 0 *)
+Theorem C24_refuted_b_width_ignored : printf_builtin w_b_width_ignored <> BOut [32;32;32;32;120;124] 0 /\ (fun a => spec_printf (hd [] a) (tl a)) w_b_width_ignored = None.
+Proof. exact refuted_b_width_ignored. Qed.
+
+(* printf '%+x' '255'  -> bash: 'ff' status 0 *)
+Theorem C24_refuted_sign_flag_on_unsigned : printf_builtin w_sign_flag_on_unsigned <> BOut [102;102] 0 /\ (fun a => spec_printf (hd [] a) (tl a)) w_sign_flag_on_unsigned = None.
+Proof. exact refuted_sign_flag_on_unsigned. Qed.
+
+(* printf '%+ d' '5'  -> bash: '+5' status 0 *)
+Theorem C24_refuted_multiple_flags_rejected : printf_builtin w_multiple_flags_rejected <> BOut [43;53] 0 /\ (fun a => spec_printf (hd [] a) (tl a)) w_multiple_flags_rejected = None.
+Proof. exact refuted_multiple_flags_rejected. Qed.
+
+(* printf 'abc%'  -> bash: 'abc' status 1 *)
+Theorem C24_refuted_incomplete_directive_output : printf_builtin w_incomplete_directive_output <> BOut [97;98;99] 1 /\ (fun a => spec_printf (hd [] a) (tl a)) w_incomplete_directive_output = None.
+Proof. exact refuted_incomplete_directive_output. Qed.
+
+(* printf '%5%|'  -> bash: '' status 1 *)
+Theorem C24_refuted_percent_with_flags_or_width : printf_builtin w_percent_with_flags_or_width <> BOut [] 1 /\ (fun a => spec_printf (hd [] a) (tl a)) w_percent_with_flags_or_width = None.
+Proof. exact refuted_percent_with_flags_or_width. Qed.
+
+(* printf '%u' '18446744073709551615'  -> bash: '18446744073709551615' status 0 *)
+Theorem C24_refuted_unsigned_beyond_int64 : printf_builtin w_unsigned_beyond_int64 <> BOut [49;56;52;52;54;55;52;52;48;55;51;55;48;57;53;53;49;54;49;53] 0 /\ (fun a => spec_printf (hd [] a) (tl a)) w_unsigned_beyond_int64 = None.
+Proof. exact refuted_unsigned_beyond_int64. Qed.
+
+(* printf '%b' 'a\\cb' 'x'  -> bash: 'a' status 0 *)
+Theorem C24_refuted_b_backslash_c : printf_builtin w_b_backslash_c <> BOut [97] 0 /\ (fun a => spec_printf (hd [] a) (tl a)) w_b_backslash_c = None.
+Proof. exact refuted_b_backslash_c. Qed.
+
+(* printf '%b' "\\'"  -> bash: "\\'" status 0 *)
+Theorem C24_refuted_b_quote_escape : printf_builtin w_b_quote_escape <> BOut [92;39] 0 /\ (fun a => spec_printf (hd [] a) (tl a)) w_b_quote_escape = None.
+Proof. exact refuted_b_quote_escape. Qed.
+
+(* printf '%5s|' 'é'  -> bash: '   é|' status 0 *)
+Theorem C24_refuted_width_counts_runes : printf_builtin w_width_counts_runes <> BOut [32;32;32;195;169;124] 0 /\ (fun a => spec_printf (hd [] a) (tl a)) w_width_counts_runes = None.
+Proof. exact refuted_width_counts_runes. Qed.
+
+(* printf '\\ud800'  -> bash: b'\xed\xa0\x80' status 0 *)
+Theorem C24_refuted_unicode_escape_nonscalar : printf_builtin w_unicode_escape_nonscalar <> BOut [237;160;128] 0 /\ (fun a => spec_printf (hd [] a) (tl a)) w_unicode_escape_nonscalar = None.
+Proof. exact refuted_unicode_escape_nonscalar. Qed.
+
+(* printf '\\%d|' '7'  -> bash: '\\7|' status 0 *)
+Theorem C24_refuted_backslash_percent : printf_builtin w_backslash_percent <> BOut [92;55;124] 0 /\ (fun a => spec_printf (hd [] a) (tl a)) w_backslash_percent = None.
+Proof. exact refuted_backslash_percent. Qed.
+
+(* echo '-ne' 'a\\n'  -> bash: 'a\n' status 0 *)
+Theorem C24_refuted_echo_combined_options : echo_builtin w_echo_combined_options <> BOut [97;10] 0 /\ spec_echo w_echo_combined_options = None.
+Proof. exact refuted_echo_combined_options. Qed.
+
+(* echo '-e' '\\101'  -> bash: '\\101\n' status 0 *)
+Theorem C24_refuted_echo_bare_octal : echo_builtin w_echo_bare_octal <> BOut [92;49;48;49;10] 0 /\ spec_echo w_echo_bare_octal = None.
+Proof. exact refuted_echo_bare_octal. Qed.
+
